@@ -62,7 +62,7 @@ PROPS = {
         trusted_base=COMMON_TB + ["addresses/metadata abstracted to codes (distinct byte strings = distinct codes, checked by the harness pool)",
                                   "time abstracted to recent/long-ago classes; Go monotonic clock gives distinct change stamps",
                                   "net.IPNet.Contains as the allow-list predicate; go-msgpack for decoding queued broadcasts in the hook"],
-        assumptions=["calls are serialised by nodeLock (no concurrency in the model)", "incarnations below 2^32-1 where stated"],
+        assumptions=["calls are serialised by nodeLock (no concurrency in the model)", "incarnations below 2^32-1 where stated", "cluster-level theorems: restart-free histories of the cluster model (network = monotone pool of claims delivered in any order/multiplicity, push/pull entry-wise, timing and target selection free); fewer than 2^32 steps"],
         level_text='Proof: refuteInc is strictly above every accusation below 2^32-1 (uint32 arithmetic, wrap witness at the excluded point); suspect/dead/alive accusations against the running local node yield a refutation (incarnation above the claim, record carries it, one alive broadcast, score+1); C02_history: the local record stays alive over every operation sequence. Cluster level (C02_cluster_bounded, C02_cluster_defends): in every history of the cluster model - any number of nodes, lossy/reordering/duplicating network, failed probes, timeouts, joins, updates, leaves - no record or claim about a member ever exceeds the incarnation the member itself reached, so the counter side conditions hold in every reachable state and a running node refutes every accusation that can reach it (induction over cluster histories). Lean theorems over the model, tied by table + histories on the real code (state, effects and claim content).',
         level_note="Trusted: as C01. Interpretation: an alive claim about the local node counts only if it passes the admission filters (version sanity, alive delegate, allow-list) and names the node's own address; a different address is the hijack clause of C08.",
         engine="step-harness",
@@ -88,7 +88,7 @@ PROPS = {
         trusted_base=COMMON_TB + ["addresses/metadata abstracted to codes (distinct byte strings = distinct codes, checked by the harness pool)",
                                   "time abstracted to recent/long-ago classes; Go monotonic clock gives distinct change stamps",
                                   "net.IPNet.Contains as the allow-list predicate; go-msgpack for decoding queued broadcasts in the hook"],
-        assumptions=["calls are serialised by nodeLock (no concurrency in the model)", "incarnations below 2^32-1 where stated"],
+        assumptions=["calls are serialised by nodeLock (no concurrency in the model)", "incarnations below 2^32-1 where stated", "cluster-level theorems: restart-free histories of the cluster model (network = monotone pool of claims delivered in any order/multiplicity, push/pull entry-wise, timing and target selection free); fewer than 2^32 steps"],
         level_text="Proof (partial): conflict keeps the address and fires the callback, reclaim rules, departure recorded as left, no resurrection by alive claims no newer than the departure; cluster level (C08_cluster_left_is_left): in every history of the cluster model a member is recorded as left by anybody, or announced as departed on the network, only if it called Leave - Lean theorems over the model tied by table + histories. The 'Leave returned nil so a peer was sent the departure' clause is covered by the simulator leg.",
         level_note='Trusted: as C01. Known findings: second Leave after a timed-out Leave returns nil without sending; tombstone expiry allows resurrection (protocol design).',
         engine="step-harness",
@@ -263,7 +263,7 @@ PROPS = {
         trusted_base=COMMON_TB + ["testing/synctest virtual time: Go timers, channels and the scheduler inside a bubble; processing time is zero",
                                   "the simulator transport (non-blocking delivery, latency/loss/duplication/partition injection, net.Pipe streams)",
                                   "math/rand target selection is seeded but goroutine scheduling is not fully deterministic: the recorded outcome is the replay artifact"],
-        assumptions=["goroutine scheduling delays and real network timing are not modelled (virtual time)"],
+        assumptions=["goroutine scheduling delays and real network timing are not modelled (virtual time)", "cluster-level theorems: restart-free histories of the cluster model (network = monotone pool of claims delivered in any order/multiplicity, push/pull entry-wise, timing and target selection free); fewer than 2^32 steps"],
         level_text='Proof (partial): probe target is never self or dead, each eligible peer is returned in list order before the wrap-around (pass_step), the local and listed records survive reaping, the stale-timer and timeout bounds of C06, monotonicity of the bound; C03_own_evidence / C03_cluster_own_evidence: in any cluster state, whatever the other nodes do, one unanswered probe of a member held alive followed by the expiry of the suspicion it started leaves the prober not listing the member, with a leave event and a dead broadcast signed by the prober (Lean). Tied by an exact cursor correspondence on the real probe(), by the step harness (suspicion and timer callback on the real code) and by crash simulations in virtual time against the bound, with the cluster-invariant monitor on the wire.',
         level_note="Partial: the time per probe tick (awareness-scaled interval), the ticker and TCP-fallback timing are observed in virtual time, not derived; the bound is measured from the later of the crash and the survivor's last join/update event for the member.",
         engine="cluster-simulator",
@@ -277,7 +277,7 @@ PROPS = {
         trusted_base=COMMON_TB + ["testing/synctest virtual time: Go timers, channels and the scheduler inside a bubble; processing time is zero",
                                   "the simulator transport (non-blocking delivery, latency/loss/duplication/partition injection, net.Pipe streams)",
                                   "math/rand target selection is seeded but goroutine scheduling is not fully deterministic: the recorded outcome is the replay artifact"],
-        assumptions=["goroutine scheduling delays and real network timing are not modelled (virtual time)"],
+        assumptions=["goroutine scheduling delays and real network timing are not modelled (virtual time)", "cluster-level theorems: restart-free histories of the cluster model (network = monotone pool of claims delivered in any order/multiplicity, push/pull entry-wise, timing and target selection free); fewer than 2^32 steps"],
         level_text='Proof (partial): an ack within the latency bound answers the probe (no suspicion, score moves down); C04_cluster_history: in the cluster model (any number of nodes running the merge rules over a network that reorders, duplicates, delays and loses claims) every history without an unanswered probe - any interleaving of joins, updates, deliveries, push/pull exchanges, leaves, reaping, timer callbacks - keeps every node free of suspect/dead records and timers with score 0, puts no suspect claim or accusation on the network and reports leave events only for members that called Leave (Lean, induction over histories). Tied by the single-node step harness (state, effects and the content of every claim handed to the broadcast queue) and by healthy-cluster simulations on the real code.',
         level_note="Partial: 'responsive' and 'delivered within half the probe timeout' are runtime conditions; the theorem takes their consequence (no probe goes unanswered, C04_ack_in_time_no_suspect) as the definition of a healthy history, and the simulator realises them in virtual time. The composition of nodes and network in the cluster model is not itself compared step by step with a multi-node run (the simulator checks the theorem's conclusions on the real code instead). Interpretation: a leave event for a member that itself called Leave is legitimate.",
         engine="cluster-simulator",
@@ -291,7 +291,7 @@ PROPS = {
         trusted_base=COMMON_TB + ["testing/synctest virtual time: Go timers, channels and the scheduler inside a bubble; processing time is zero",
                                   "the simulator transport (non-blocking delivery, latency/loss/duplication/partition injection, net.Pipe streams)",
                                   "math/rand target selection is seeded but goroutine scheduling is not fully deterministic: the recorded outcome is the replay artifact"],
-        assumptions=["goroutine scheduling delays and real network timing are not modelled (virtual time)"],
+        assumptions=["goroutine scheduling delays and real network timing are not modelled (virtual time)", "cluster-level theorems: restart-free histories of the cluster model (network = monotone pool of claims delivered in any order/multiplicity, push/pull entry-wise, timing and target selection free); fewer than 2^32 steps"],
         level_text="Proof (partial): an accusation is overridden wherever the accused's newer alive claim is delivered; the accused always produces such a claim; a state exchange only moves views forward. Cluster level: in every history of the cluster model every accusation held by anybody is bounded by the accused member's own incarnation (C02_cluster_bounded), the running accused refutes it when it hears of it (C02_cluster_defends), and any newer alive claim in flight - gossip or state entry - clears it wherever it is delivered, the address condition being an invariant (C05_cluster_override, C05_cluster_state_override); C05_cluster_recoverable: from every reachable state, for every accusation anybody holds against a running member, a continuation of at most three steps (state exchange, refutation, delivery) makes the holder list the member alive again (Lean, induction over cluster histories). Convergence itself (that the deliveries happen) is classified by the simulator on every history.",
         level_note='Partial: settling time and convergence depend on random target selection. Known finding C05-stable-split (protocol-level, no re-join mechanism); every other non-converged final state is reported.',
         engine="cluster-simulator",
